@@ -1,4 +1,6 @@
 import HexProofs.Numeric.Simple
+import HexProofs.Numeric.SeriesInputsKC
+import HexProofs.Numeric.SeriesInputsSupertrend
 import HexProofs.Numeric.SeriesInputsThres
 import HexProofs.Numeric.AvgExtra
 import HexProofs.Numeric.Channel
@@ -1137,5 +1139,53 @@ example : ∃ out : List (Candle ℚ),
       (demoForeign_abs "STDEV_2_data" (by decide) (by decide) (by decide) c hc).1,
       (demoForeign_abs "STDEV_2_data" (by decide) (by decide) (by decide) c hc).2⟩)
     demoForeign_in demoForeign_none
+
+theorem C05_KC_inputs_holds : Numeric.C05KcStatement := Numeric.c05_kc_inputs
+
+theorem KC_inputs_series {K : Type} [Field K] [LinearOrder K] [IsStrictOrderedRing K] [LawfulPyF K]
+    (p : Nat) (hp : 2 ≤ p) (nm input : String) (mult : Num K) (n t0 : Nat)
+    (cs : List (Candle K)) (r : Nat → Num K) (hn : KcNames nm) (hi : Numeric.kcI_Input nm input)
+    (habs : ∀ c ∈ cs, Numeric.kcI_Absent nm c)
+    (hnone : ∀ j, j < cs.length → j < t0 → readingByCandle (cs.getD j default) input = .none)
+    (hnum : ∀ j, j < cs.length → t0 ≤ j → readingByCandle (cs.getD j default) input = .num (r (j - t0))) :
+    ∃ rows : List (KcRow K), rows.length = cs.length ∧
+      engineCalc (mkTop (.kc (p : Int) input mult : Kind K) nm n) cs = .ok (decoKc nm cs rows) ∧
+      ∀ j, j < cs.length → Numeric.kcI_OK p n t0 mult (fun k => (r k).toF) cs j (rows.getD j KcRow.dflt) :=
+  Numeric.kcI_inputs_series p hp nm input mult n t0 cs r hn hi habs hnone hnum
+
+example : ∃ out : List (Candle ℚ),
+    engineCalc (mkTop (.kc ((2 : Nat) : Int) "EMA_2" (fl 2) : Kind ℚ) "KC_2" 4) demoForeign = .ok out ∧
+    out.length = demoForeign.length ∧
+    ∀ j, j < demoForeign.length → Numeric.kcI_ReadingsOK 2 4 2 (fl 2) "KC_2" demoX demoForeign out j :=
+  C05_KC_inputs_holds ℚ 2 "KC_2" "EMA_2" (fl 2) 4 2 demoForeign demoX (by norm_num) (by decide) kcNames_demo
+    Numeric.kcI_demo_input Numeric.kcI_demo_absent demoForeign_in demoForeign_none
+end Hex.C05
+namespace Hex.C05
+open Hex.Numeric
+
+/-- **Supertrend over candle lists with foreign readings** (`Numeric.C05SupertrendStatement`): Supertrend reads
+NO `input` (model and library: `input_value` is ignored), so for EVERY candle list (its five names absent) and
+every `input` the engine returns the raw statement `StCandleOK` of `supertrend_series_…`, unshifted. -/
+theorem C05_SUPERTREND_inputs_holds : Numeric.C05SupertrendStatement := Numeric.c05_supertrend_inputs
+/-- the same in the two-start shape (`input` `None` on the first `t0` candles): the conclusion is independent of `t0` -/
+theorem C05_SUPERTREND_shift_holds : Numeric.C05SupertrendShiftStatement := Numeric.c05_supertrend_shift
+/-- exact rows: `calculate()` returns `decoSt nm cs rows` (only the five own keys change), rows `StRowOK` -/
+theorem supertrend_inputs_rows {K : Type} [Field K] [LinearOrder K] [IsStrictOrderedRing K] [LawfulPyF K]
+    (p : Nat) (hp : 1 ≤ p) (nm input : String) (mult : Num K) (n : Nat) (hn : StNames nm)
+    (cs : List (Candle K)) (habs : ∀ c ∈ cs, Numeric.stI_Absent nm c) :
+    ∃ rows : List (Numeric.StRow K), rows.length = cs.length ∧
+      engineCalc (mkTop (.supertrend (p : Int) input mult : Kind K) nm n) cs = .ok (Numeric.decoSt nm cs rows) ∧
+      ∀ j, j < cs.length → Numeric.StRowOK p n mult.toF cs j (rows.getD j Numeric.StRow.dflt) :=
+  Numeric.stI_inputs_rows p hp nm input mult n hn cs habs
+/-- the `input` parameter of Supertrend is not read (every carrier, every candle list) -/
+theorem supertrend_input_irrelevant {F : Type} [PyF F] (p : Int) (nm input input' : String) (mult : Num F) (n : Nat)
+    (cs : List (Candle F)) :
+    engineCalc (mkTop (.supertrend p input mult : Kind F) nm n) cs
+      = engineCalc (mkTop (.supertrend p input' mult : Kind F) nm n) cs :=
+  Numeric.stI_input_irrelevant p nm input input' mult n cs
+/-- the textbook series over candles with foreign readings is the one over the stripped (`Plain`) candles -/
+theorem supertrend_series_bare {K : Type} [Field K] [LinearOrder K] [IsStrictOrderedRing K] [LawfulPyF K]
+    (p : Nat) (mult : K) (cs : List (Candle K)) :
+    Numeric.stSeries p mult (cs.map Candle.bare) = Numeric.stSeries p mult cs := Numeric.stI_series_bare p mult cs
 
 end Hex.C05
